@@ -19,6 +19,9 @@ CLAIMED = {
  "C06": ("sibling agreement, must-pass-through, loop-dominance and effect-before-rejection rules on SSA (static)",
          "Coupling of reported writing state and per-channel gates decided for every path of the write-control code: installers clear the pause flag; PAUSE/UNPAUSE set every processor then report the same value on every path; reported-inactive is dominated by removal of every handle from every processor; reported-active is dominated by the installing loop whose guards are the flags copied into the reported file types; constructed-error rejections have no prior effect; file writing is dominated by the not-paused and presence tests while publication is not; installers are dominated by a universal has-writer rejection loop; only write-control code writes Active/Paused/pause flag; START writes into a directory found absent and then created. Not decided: directory numbering, histories with I/O failures inside WritingState.Start/Stop.",
          "DataPublisher/WritingState are name-keyed anchors; handles, installers, removers, predicates and the processors field are discovered structurally", "DESIGN.md §2 C06"),
+ "C16": ("value-flow of the live-config path into destructive argument positions, dominance, control-dependence and key-set agreement (static)",
+         "Structural clauses decided: the live config path is never the old-path of a rename, removed, created/truncated or written directly, only atomically replaced by a rename whose source is the completely written, error-checked temporary file (so every kill point leaves a complete old or new file); in the updater loop remembering a message depends only on it having changed and on constant tags, and the replay arm ranges over the whole cache; every restored key is a published, persisted tag and saveState skips only the no-save list; restore loops do not alias a shared range variable. Not decided: YAML value round trip, fsync durability, SUB delivery.",
+         "POSIX rename atomicity / link semantics; RunClientUpdater, publish, nosaveMessages, ClientUpdate are name-keyed anchors", "DESIGN.md §2 C16"),
 }
 
 NOT_BUILT_REASON = "static rule designed in DESIGN.md but not built yet; not claimed until it is"
